@@ -1,11 +1,22 @@
 import ConjureVerif.Model.Idents
+import ConjureVerif.Lemmas.GenOrder
+import ConjureVerif.Lemmas.TypePath
+import ConjureVerif.Lemmas.Boxing
+import ConjureVerif.Gen.CodegenObjectsSrc
+import ConjureVerif.Gen.CodegenUnionsSrc
+import ConjureVerif.Gen.CodegenAliasesSrc
+import ConjureVerif.Gen.CodegenLibSrc
+import ConjureVerif.Gen.CodegenContextSrc
 /-
 C03 — Code generation succeeds and its output compiles for every valid definition.
 
-No Lean model can express rustc.  What is logic here is the identifier escaping — the only part of the statement
-that is a closed-form rule ("Rust keywords used as field, argument, endpoint, variant or package names") — proved
-for every name; everything else (type mapping, boxing, derives, paths, builder synthesis) is exercised, not proved:
-seeded IR documents are generated and the emitted module trees compiled by rustc against the runtime crates.
+No Lean model can express rustc.  What is logic here are the closed-form rules of the statement: the identifier
+escaping ("Rust keywords used as field, argument, endpoint, variant or package names"), and "types spread over nested
+packages" — which module a type is written to (never one that a sub-package of its package occupies) and the relative
+path by which generated code names a type of another package (it resolves, from any package to any package).  These
+are proved for every name and every pair of packages; everything else (type mapping, boxing, derives, builder
+synthesis) is exercised, not proved: seeded IR documents are generated and the emitted module trees compiled by rustc
+against the runtime crates.
 -/
 set_option linter.unusedSimpArgs false
 namespace ConjureVerif.C03
@@ -61,6 +72,114 @@ theorem C03_type_ident_never_self (camel : String) :
     intro he
     rw [he] at h
     exact h gen_self_escaped
+
+/-! #### types spread over nested packages -/
+section Modules
+open ConjureVerif.GenOrder ConjureVerif.TypePath
+
+/-- the functions of the generator the two models below transcribe -/
+theorem gen_module_sources :
+    Gen.CodegenLibSrc.hashes.lookup "ModuleTrie::insert" = some 6051593475104134925 /- "{matchmodule_path.split_first(){Some((first,rest))=>self.submodules.entry(first.clone()).or_insert_with(ModuleTrie::new).insert(rest,type_),None=>self.types.push(type_),}}" -/ ∧
+    Gen.CodegenLibSrc.hashes.lookup "ModuleTrie::render" = some 13277887319379923158 /- "{fs::create_dir_all(dir).with_context(||format!(\"errorcreatingdirectory{}\",dir.display()))?;fortype_in&self.types{self.write_module(&dir.join(format!(\"{}.rs\",self.type_module_name(type_))),&type_.contents,)?;}for(name,module)in&self.submodules{module.render(&dir.join(name),false)?;}letroot=self.create_root_module(lib_root);letfile_name=iflib_root{\"lib.rs\"}else{\"mod.rs\"};self.write_module(&dir.join(file_name),&root)?;Ok(())}" -/ ∧
+    Gen.CodegenLibSrc.hashes.lookup "ModuleTrie::type_module_name" = some 15234807820239733828 /- "{letmutname=type_.module_name.clone();whileself.submodules.contains_key(&name){name.push('_');}name}" -/ ∧
+    Gen.CodegenLibSrc.hashes.lookup "ModuleTrie::create_root_module" = some 2135525283162995021 /- "{letattrs=iflib_root{quote!{#![allow(warnings)]}}else{quote!{}};letuses=self.types.iter().map(|m|{letmodule_name=self.type_module_name(m).parse::<TokenStream>().unwrap();lettype_names=m.type_names.iter().map(|n|n.parse::<TokenStream>().unwrap());quote!{#[doc(inline)]pubuseself::#module_name::{#(#type_names),*};}});lettype_mods=self.types.iter().map(|m|{letmodule_name=self.type_module_name(m).parse::<TokenStream>().unwrap();quote!{pubmod#module_name;}});letsub_mods=self.submodules.keys().map(|v|{letmodule_name=v.parse::<TokenStream>().unwrap();quote!{pubmod#module_name;}});quote!{#attrs#(#uses)*#(#type_mods)*#(#sub_mods)*}}" -/ ∧
+    Gen.CodegenContextSrc.hashes.lookup "Context::module_path" = some 11370191910348346280 /- "{letraw=self.raw_module_path(name.package());ifraw.starts_with(&self.strip_prefix){raw[self.strip_prefix.len()..].to_vec()}else{raw}}" -/ ∧
+    Gen.CodegenContextSrc.hashes.lookup "Context::raw_module_path" = some 4019254541348680121 /- "{package.split('.').map(|s|self.ident_name(s)).collect()}" -/ ∧
+    Gen.CodegenContextSrc.hashes.lookup "Context::type_path" = some 12465151843134716927 /- "{letthis_module_path=self.module_path(this_type);letother_module_path=self.module_path(other_type);letshared_prefix=this_module_path.iter().zip(&other_module_path).take_while(|(a,b)|a==b).count();letmutcomponents=vec![quote!(super)];for_in0..this_module_path.len()-shared_prefix{components.push(quote!(super));}forcomponentin&other_module_path[shared_prefix..]{components.push(component.parse().unwrap());}letother_type_name=self.type_name(other_type.name());quote!(#(#components::)*#other_type_name)}" -/ := by decide +kernel
+
+/-- **a type's module never shares its name with a sub-package's module**: in every module of the generated tree,
+whatever types and sub-packages it holds, the file a type is written to (and the `pub mod` that declares it) goes by
+a name none of the sub-package modules beside it has — a type `Inner` next to a package `….inner` is written to
+`inner_`; and a name that collides with nothing is kept as it is -/
+theorem C03_type_module_free (types : List (String × String)) (subs : Subs) (ty : String × String) (_h : ty ∈ types) :
+    typeModule (Subs.names subs) ty.1 ∉ Subs.names subs ∧
+    (ty.1 ∉ Subs.names subs → typeModule (Subs.names subs) ty.1 = ty.1) ∧
+    (∃ k, typeModule (Subs.names subs) ty.1 = ty.1 ++ us k) :=
+  ⟨typeModule_not_mem _ _, typeModule_eq _ _, typeModule_form _ _⟩
+
+/-- … and two types stay in two modules (module names of one package differ by more than trailing underscores:
+they are snake-cased type names, or a keyword followed by one underscore) -/
+theorem C03_type_modules_distinct (subs : List String) (t1 t2 : String) (h : core t1 ≠ core t2) :
+    typeModule subs t1 ≠ typeModule subs t2 := typeModule_injective subs t1 t2 h
+
+/-- **the path generated code uses for a type of another package resolves to it**: for any two module paths (any
+packages, any `stripPrefix`), read from the referring type's own module the emitted `super::…::name::Type` leads to
+the module of the other package, where the type is re-exported; and it holds no more `super`s than there are modules
+above the referring type -/
+theorem C03_type_path_resolves (strip thisPkg otherPkg : List String) (m typeName : String) :
+    resolve (modulePath strip thisPkg ++ [m]) (typePath (modulePath strip thisPkg) (modulePath strip otherPkg) typeName) =
+      some (modulePath strip otherPkg ++ [typeName]) ∧
+    ((typePath (modulePath strip thisPkg) (modulePath strip otherPkg) typeName).filter (· == .super)).length ≤
+      (modulePath strip thisPkg).length + 1 :=
+  ⟨typePath_resolves _ _ _ _, typePath_supers _ _ _⟩
+
+example : typeModule ["inner", "other"] "inner" = "inner_" ∧ typeModule ["inner", "inner_"] "inner" = "inner__" ∧
+    typeModule ["inner"] "leaf" = "leaf" := by decide +kernel
+
+example : showPath (typePath (modulePath ["com", "palantir"] ["com", "palantir", "a", "b"])
+    (modulePath ["com", "palantir"] ["com", "palantir", "a", "c", "d"]) "Leaf") = "super::super::c::d::Leaf" := by
+  decide +kernel
+end Modules
+
+/-! #### types recursive through optionals and collections -/
+section Recursion
+open ConjureVerif.Boxing
+
+/-- the functions that decide what is held by value and what behind a `Box`, and the three places that call them -/
+theorem gen_boxing_sources :
+    Gen.CodegenContextSrc.hashes.lookup "Context::needs_box" = some 6212673282279784620 /- "{matchdef{Type::Primitive(_)=>false,Type::Optional(def)=>self.needs_box(def.item_type()),Type::List(_)|Type::Set(_)|Type::Map(_)=>false,Type::Reference(def)=>self.ref_needs_box(def),Type::External(def)=>self.needs_box(def.fallback()),}}" -/ ∧
+    Gen.CodegenContextSrc.hashes.lookup "Context::ref_needs_box" = some 16980039490533604179 /- "{letctx=&self.types[name];match&ctx.def{TypeDefinition::Alias(def)=>self.needs_box(def.alias()),TypeDefinition::Enum(_)=>false,TypeDefinition::Object(_)|TypeDefinition::Union(_)=>true,}}" -/ ∧
+    Gen.CodegenContextSrc.hashes.lookup "Context::rust_type_inner" = some 6597268518036500814 /- "{matchdef{Type::Primitive(def)=>match*def{PrimitiveType::String=>self.string_ident(this_type),PrimitiveType::Datetime=>quote!(conjure_object::DateTime<conjure_object::Utc>),PrimitiveType::Integer=>quote!(i32),PrimitiveType::Double=>{ifkey{quote!(conjure_object::DoubleKey)}else{quote!(f64)}}PrimitiveType::Safelong=>quote!(conjure_object::SafeLong),PrimitiveType::Binary=>quote!(conjure_object::Bytes),PrimitiveType::Any=>quote!(conjure_object::Any),PrimitiveType::Boolean=>quote!(bool),PrimitiveType::Uuid=>quote!(conjure_object::Uuid),PrimitiveType::Rid=>quote!(conjure_object::ResourceIdentifier),PrimitiveType::Bearertoken=>quote!(conjure_object::BearerToken),},Type::Optional(def)=>{letoption=self.option_ident(this_type);letitem=self.rust_type_inner(this_type,def.item_type(),key);quote!(#option<#item>)}Type::List(def)=>{letvec=self.vec_ident(this_type);letitem=self.rust_type_inner(this_type,def.item_type(),key);quote!(#vec<#item>)}Type::Set(def)=>{letitem=self.rust_type_inner(this_type,def.item_type(),true);quote!(std::collections::BTreeSet<#item>)}Type::Map(def)=>{letkey=self.rust_type_inner(this_type,def.key_type(),true);letvalue=self.rust_type(this_type,def.value_type());quote!(std::collections::BTreeMap<#key,#value>)}Type::Reference(def)=>self.type_path(this_type,def),Type::External(def)=>self.rust_type_inner(this_type,def.fallback(),key),}}" -/ ∧
+    Gen.CodegenContextSrc.hashes.lookup "Context::boxed_rust_type" = some 6237657713517485795 /- "{matchdef{Type::Optional(def)=>{letoption=self.option_ident(this_type);letitem=self.boxed_rust_type(this_type,def.item_type());quote!(#option<#item>)}Type::Reference(def)=>self.ref_boxed_rust_type(this_type,def),Type::External(def)=>self.boxed_rust_type(this_type,def.fallback()),def=>self.rust_type(this_type,def),}}" -/ ∧
+    Gen.CodegenContextSrc.hashes.lookup "Context::ref_boxed_rust_type" = some 11848642329418232511 /- "{letctx=&self.types[name];letneeds_box=match&ctx.def{TypeDefinition::Alias(def)=>self.needs_box(def.alias()),TypeDefinition::Enum(_)=>false,TypeDefinition::Object(_)=>match&self.types[this_type].def{TypeDefinition::Union(_)=>false,_=>true,},TypeDefinition::Union(_)=>true,};letunboxed=self.type_path(this_type,name);ifneeds_box{letbox_=self.box_ident(name);quote!(#box_<#unboxed>)}else{unboxed}}" -/ ∧
+    Gen.CodegenObjectsSrc.hashes.lookup "fn generate" = some 12972639228190881497 /- "{letdocs=ctx.docs(def.docs());letname=ctx.type_name(def.type_name().name());letmuttype_attrs=vec![quote!(#[serde(crate=\"conjure_object::serde\")])];letmutderives=vec![\"Debug\",\"Clone\",\"conjure_object::serde::Serialize\",\"conjure_object::serde::Deserialize\",];ifdef.fields().iter().any(|v|ctx.has_double(v.type_())){derives.push(\"conjure_object::private::Educe\");type_attrs.push(quote!(#[educe(PartialEq,Eq,PartialOrd,Ord,Hash)]));}else{derives.push(\"PartialEq\");derives.push(\"Eq\");derives.push(\"PartialOrd\");derives.push(\"Ord\");derives.push(\"Hash\");}ifdef.fields().iter().all(|v|ctx.is_copy(v.type_())){derives.push(\"Copy\");}letderives=derives.iter().map(|s|s.parse::<TokenStream>().unwrap());type_attrs.insert(0,quote!(#[derive(#(#derives),*)]));letfield_attrs=def.fields().iter().map(|s|{letbuilder_attr=field_builder_attr(ctx,def,s);letserde_attr=serde_field_attr(ctx,def,s);leteduce_attr=ifctx.is_double(s.type_()){quote!{#[educe(PartialEq(method(conjure_object::private::DoubleOps::eq)),Ord(method(conjure_object::private::DoubleOps::cmp)),Hash(method(conjure_object::private::DoubleOps::hash)),)]}}else{quote!()};quote!{#builder_attr#serde_attr#educe_attr}});letfields=def.fields().iter().map(|f|ctx.field_name(f.field_name()));letboxed_types=&def.fields().iter().map(|s|ctx.boxed_rust_type(def.type_name(),s.type_())).collect::<Vec<_>>();letconstructor=generate_constructor(ctx,def);letaccessors=def.fields().iter().map(|s|{letdocs=ctx.docs(s.docs());letdeprecated=ctx.deprecated(s.deprecated());letname=ctx.field_name(s.field_name());letret_type=ctx.borrowed_rust_type(def.type_name(),s.type_());letborrow=ctx.borrow_rust_type(quote!(self.#name),s.type_());quote!(#docs#deprecated#[inline]pubfn#name(&self)->#ret_type{#borrow})});quote!{#docs#(#type_attrs)*#[conjure_object::private::staged_builder::staged_builder]#[builder(crate=conjure_object::private::staged_builder,update,inline,)]pubstruct#name{#(#field_attrs#fields:#boxed_types,)*}impl#name{#constructor#(#accessors)*}}}" -/ ∧
+    Gen.CodegenUnionsSrc.hashes.lookup "fn generate_enum" = some 8449921773393489155 /- "{letname=ctx.type_name(def.type_name().name());letmuttype_attrs=vec![];letmutderives=vec![\"Debug\",\"Clone\"];ifdef.union_().iter().any(|v|ctx.has_double(v.type_())){derives.push(\"conjure_object::private::Educe\");type_attrs.push(quote!(#[educe(PartialEq,Eq,PartialOrd,Ord,Hash)]));}else{derives.push(\"PartialEq\");derives.push(\"Eq\");derives.push(\"PartialOrd\");derives.push(\"Ord\");derives.push(\"Hash\");}letderives=derives.iter().map(|s|s.parse::<TokenStream>().unwrap());type_attrs.insert(0,quote!(#[derive(#(#derives),*)]));letdocs=def.union_().iter().map(|f|ctx.docs(f.docs()));letdeprecated=def.union_().iter().map(|f|ctx.deprecated(f.deprecated()));letvariants=&variants(ctx,def);lettypes=&def.union_().iter().map(|f|{letattr=ifctx.is_double(f.type_()){quote!{#[educe(PartialEq(method(conjure_object::private::DoubleOps::eq)),Ord(method(conjure_object::private::DoubleOps::cmp)),Hash(method(conjure_object::private::DoubleOps::hash)),)]}}else{quote!()};letty=ctx.boxed_rust_type(def.type_name(),f.type_());quote!(#attr#ty)}).collect::<Vec<_>>();letunknown=unknown(ctx,def);letunknown_variant=ifctx.exhaustive(){quote!()}else{quote!{#[doc=\"Anunknownvariant.\"]#unknown(#unknown),}};quote!{#(#type_attrs)*pubenum#name{#(#docs#deprecated#variants(#types),)*#unknown_variant}}}" -/ ∧
+    Gen.CodegenAliasesSrc.hashes.lookup "fn generate" = some 9976687671691517758 /- "{letname=ctx.type_name(def.type_name().name());letalias=ctx.rust_type(def.type_name(),def.alias());letresult=ctx.result_ident(def.type_name());letdocs=ctx.docs(def.docs());letmuttype_attrs=vec![quote!(#[serde(crate=\"conjure_object::serde\",transparent)])];letmutfield_attrs=vec![];letmutderives=vec![\"Debug\",\"Clone\",\"conjure_object::serde::Deserialize\",\"conjure_object::serde::Serialize\",];ifctx.is_copy(def.alias()){derives.push(\"Copy\");}ifctx.is_double(def.alias()){derives.push(\"conjure_object::private::Educe\");type_attrs.push(quote!(#[educe(PartialEq,Eq,PartialOrd,Ord,Hash)]));field_attrs.push(quote!{#[educe(PartialEq(method(conjure_object::private::DoubleOps::eq)),Ord(method(conjure_object::private::DoubleOps::cmp)),Hash(method(conjure_object::private::DoubleOps::hash)),)]})}else{derives.push(\"PartialEq\");derives.push(\"Eq\");derives.push(\"PartialOrd\");derives.push(\"Ord\");derives.push(\"Hash\");}ifctx.is_default(def.alias()){derives.push(\"Default\");}letderives=derives.iter().map(|s|s.parse::<TokenStream>().unwrap());type_attrs.insert(0,quote!(#[derive(#(#derives),*)]));letdisplay=ifctx.is_display(def.alias()){quote!{implstd::fmt::Displayfor#name{fnfmt(&self,fmt:&mutstd::fmt::Formatter<'_>)->std::fmt::Result{std::fmt::Display::fmt(&self.0,fmt)}}}}else{quote!()};letplain=ifctx.is_plain(def.alias()){quote!{implconjure_object::Plainfor#name{fnfmt(&self,fmt:&mutstd::fmt::Formatter<'_>)->std::fmt::Result{conjure_object::Plain::fmt(&self.0,fmt)}}implconjure_object::FromPlainfor#name{typeErr=<#aliasasconjure_object::FromPlain>::Err;#[inline]fnfrom_plain(s:&str)->#result<#name,Self::Err>{conjure_object::FromPlain::from_plain(s).map(#name)}}}}else{quote!()};letfrom_iterator=matchctx.is_from_iter(def.type_name(),def.alias()){Some(item)=>quote!{implstd::iter::FromIterator<#item>for#name{fnfrom_iter<T>(iter:T)->SelfwhereT:std::iter::IntoIterator<Item=#item>,{#name(std::iter::FromIterator::from_iter(iter))}}},None=>quote!(),};letdealiased_type=ctx.rust_type(def.type_name(),ctx.dealiased_type(def.alias()));quote!{#docs#(#type_attrs)*pubstruct#name(#(#field_attrs)*pub#alias);#display#plain#from_iteratorimplstd::convert::From<#dealiased_type>for#name{#[inline]fnfrom(v:#dealiased_type)->Self{#name(std::convert::From::from(v))}}implstd::ops::Dereffor#name{typeTarget=#alias;#[inline]fnderef(&self)->&#alias{&self.0}}implstd::ops::DerefMutfor#name{#[inline]fnderef_mut(&mutself)->&mut#alias{&mutself.0}}}}" -/ := by decide +kernel
+
+/-- **no generated type holds itself by value**: for every set of definitions without an alias cycle (a Conjure
+compiler rule), however the types refer to each other — directly, through optionals, through aliases and aliases of
+aliases, through imported types' fallbacks, objects inside unions and unions inside objects — following the "holds by
+value" relation of the generated Rust types (a field or variant not wrapped in `Box`, the wrapped type of an alias;
+collections keep their elements on the heap) never leads back to where it started.  So every generated struct and
+enum has a finite size, which is what rustc demands of recursive definitions. -/
+theorem C03_no_type_holds_itself (defs : Defs) (depth : Nat → Nat) (D : Nat) (wf : AliasWF defs depth D)
+    (fuel : Nat) (hfuel : D < fuel) (n : Nat) : ¬ Holds defs fuel n n := by
+  intro h
+  have := holds_rank defs fuel depth D wf hfuel h
+  omega
+
+/-- with enough fuel (more than the longest alias chain) the boxing decision no longer depends on it: the model's
+bounded recursion is the generator's unbounded one -/
+theorem C03_boxing_fuel_irrelevant (defs : Defs) (depth : Nat → Nat) (D : Nat) (wf : AliasWF defs depth D)
+    (n f g : Nat) (hf : D ≤ f) (hg : D ≤ g) : needsBoxN defs f n = needsBoxN defs g n :=
+  needsBoxN_stable defs depth D wf (depth n) n rfl f g (by have := wf.bound n; omega) (by have := wf.bound n; omega)
+
+/-- `Node { next: optional<Node>, alias: NodeAlias }`, `NodeAlias = optional<Node>`, `Tree = union { leaf: Leaf,
+node: list<Tree>, maybe: optional<Tree> }`, `Leaf { t: optional<Tree> }`: the hypotheses hold and each object field
+and union variant gets the box the generator gives it -/
+def exDefs : Defs :=
+  [.object [.optional (.ref 0), .ref 1], .alias (.optional (.ref 0)),
+   .union [.ref 3, .coll, .optional (.ref 2)], .object [.optional (.ref 2)]]
+
+example : AliasWF exDefs (fun _ => 0) 1 := by
+  constructor
+  · intro n; omega
+  · intro n t hn m hm t' hm'
+    match n, hn with
+    | 0, hn => simp [exDefs] at hn
+    | 1, hn =>
+      simp [exDefs] at hn; subst hn
+      simp [aliasRefs] at hm; subst hm
+      simp [exDefs] at hm'
+    | 2, hn => simp [exDefs] at hn
+    | 3, hn => simp [exDefs] at hn
+    | k + 4, hn => simp [exDefs] at hn
+
+example : (exDefs.map (fun d => match d with
+    | .object fs => fs.map (boxFlags exDefs 5 false)
+    | .union fs => fs.map (boxFlags exDefs 5 true)
+    | _ => [])) = [[[true], [true]], [], [[false], [], [true]], [[true]]] := by decide
+end Recursion
 
 /-! #### non-vacuity -/
 example : identName Gen.Keywords.escaped "type" = "type_" ∧ identName Gen.Keywords.escaped "field_name" = "field_name" := by
